@@ -99,6 +99,18 @@ func execQueueReal(t *testing.T, plan any, out *Outcome) {
 	}
 	checkCommon(e)
 	checkRepliesOwnInOrder(e, "C02", true)
+	// the same oracle states C01 ("every pipelined call gets its own replies"); here it runs under line-by-line
+	// scheduling of the queue code with more callers than slots
+	checkRepliesOwnInOrder(e, "C01", true)
+	// ... but hangs are C02's subject here (one of them is a known finding of C02): under C01 only replies are judged
+	kept := out.Violations[:0]
+	for _, v := range out.Violations {
+		if v.Prop == "C01" && v.Rule == "call-never-returned" {
+			continue
+		}
+		kept = append(kept, v)
+	}
+	out.Violations = kept
 	if signature != "" {
 		// re-label the hang with its specific cause
 		for i := range out.Violations {
